@@ -13,8 +13,8 @@ from concurrent.futures import ThreadPoolExecutor
 ROOT = os.path.dirname(os.path.dirname(os.path.abspath(__file__)))
 COQ = os.path.join(ROOT, "coq")
 GEN = os.path.join(COQ, "gen")
-REPO = "/repo"
-SRC = "/repo/src/fandango"
+REPO = os.environ.get("VERIF_REPO", "/repo")
+SRC = os.path.join(REPO, "src/fandango")
 NCPU = 16
 
 # axioms the trusted base allows (DESIGN.md section 2); anything else fails a check
